@@ -7,7 +7,8 @@ import RModel.Props.C18
 /-
   C07 — Only the term changes: match soundness and locality.   (property theorems only; lemmas in Lemmas/Compound.lean)
 
-  Model: `RModel/Model/Compound.lean` — `find_compound_variants`, `IdentifierExtractor`, `is_boundary`, the exact pass
+  Model: `RModel/Model/Compound.lean` — `find_compound_variants` (with the re-join guard of commit 70a22d6;
+  `findCompoundOld` is the function before it), `IdentifierExtractor`, `is_boundary`, the exact pass
   and the overlap resolution of `find_enhanced_matches`, on top of the C18 tokenizer / renderer / detector.
   `Words` = lower-case words of length >= 2, `Neutral` = the C18 acronym-neutrality guard, `substAll pat rep 0 ws` =
   the word list `ws` with every (non-overlapping, left to right) occurrence of the word sequence `pat` replaced by `rep`.
@@ -325,46 +326,202 @@ theorem near_miss_family_untouched :
            b!"foo_bar2", b!"Foobar", b!"FOOBAR", b!"my_xfoo_bar", b!"foo-barn-item", b!"let xfoo_bar = foo_barn;"],
       findEnhanced A t b!"foo_bar" b!"baz_qux" (variantKeys A b!"foo_bar" libStyles) libStyles = [] := by decide +kernel
 
--- 4. the full-strength statement and what falsifies it today ---------------------------------------------------------
+-- 4. irregular identifiers: the re-join guard (commit 70a22d6) and the exact path --------------------------------
+
+/-- Guard soundness.  Whenever the compound matcher answers (outside the mixed-separator shortcut), the token walk of
+    `untouched_text_survives_rejoin` succeeded on the identifier: nothing in front of the first word, the join separator
+    between any two neighbouring words that are not inside one matched window, at most one trailing delimiter. -/
+theorem compound_answer_passed_guard {A : Acr} {ident old new : Bytes} {styles : List Style} {c : CMatch}
+    (h : findCompound A ident old new styles = some c) (hs : shortcutCond (extractPrefix ident).2 old = false) :
+    survivesRejoin (extractPrefix ident).2 (parse A (extractPrefix ident).2)
+      (matchedWindows (parse A old) 0 0 (parse A (extractPrefix ident).2)) c.style = true :=
+  findCompound_guard h hs
+
+/-- Exact path locality.  A hit of the exact pass is, byte for byte, one of the variants of the term (a rendering of the
+    search words in an enabled style) sitting at `start..end`; the planner replaces exactly that span, so the edit is
+    the term's span and nothing else. -/
+theorem exact_hit_is_a_variant {variants : List Bytes} {content : Bytes} {s e : Nat}
+    (h : (s, e) ∈ scanExact variants 0 0 content) :
+    ∃ v ∈ variants, v ≠ [] ∧ e = s + v.length ∧ (content.drop s).take (e - s) = v := by
+  obtain ⟨v, hv, hne, _, he, hp⟩ := scanExact_sound content 0 0 s e h
+  refine ⟨v, hv, hne, he, ?_⟩
+  have : e - s = v.length := by omega
+  rw [this]
+  exact take_of_isPrefixOf (by simpa using hp)
+
+/-- with the variant table of the term: the text of an exact match is the term rendered in one of the enabled styles -/
+theorem exact_match_is_term_rendering {A : Acr} {content search replace : Bytes} {styles : List Style} {m : M}
+    (h : m ∈ findEnhanced A content search replace (variantKeys A search styles) styles)
+    (hex : m.text = m.variant) (hnc : ∀ c, findCompound A m.variant search replace styles = some c → c.replacement ≠ m.variant) :
+    ∃ st ∈ styles, m.variant = toStyle A (parse A search) st ∧
+      (content.drop m.start).take (m.stop - m.start) = m.variant := by
+  rcases match_soundness h with ⟨s, e, hse, h1, h2, h3, _⟩ | ⟨c, hc, ht, _⟩
+  · obtain ⟨v, hv, _, _, hslice⟩ := exact_hit_is_a_variant hse
+    simp only [variantKeys, List.mem_map] at hv
+    obtain ⟨st, hst, rfl⟩ := hv
+    exact ⟨st, hst, by rw [h3, hslice], by rw [h1, h2, h3]⟩
+  · exact absurd (by rw [← ht, hex]) (hnc c hc)
+
+/-- formerly finding `doubled_separator_collapsed` (fixed by 70a22d6): for `my__foo_bar_x` the compound matcher now stays
+    silent and the exact pass marks exactly the term's span 8..15 of `let my__foo_bar_x = 1;` -/
+theorem doubled_separator_in_place :
+    findCompound A b!"my__foo_bar_x" b!"foo_bar" b!"baz_qux" libStyles = none ∧
+    findEnhanced A b!"let my__foo_bar_x = 1;" b!"foo_bar" b!"baz_qux" (variantKeys A b!"foo_bar" libStyles) libStyles =
+      [⟨1, 8, 8, 15, b!"foo_bar", b!"foo_bar"⟩] ∧
+    findCompound A b!"my_foo_bar__" b!"foo_bar" b!"baz_qux" libStyles = none ∧
+    findEnhanced A b!"my_foo_bar__" b!"foo_bar" b!"baz_qux" (variantKeys A b!"foo_bar" libStyles) libStyles =
+      [⟨1, 3, 3, 10, b!"foo_bar", b!"foo_bar"⟩] := by decide +kernel
+
+/-- formerly finding `leading_underscores_lost` -/
+theorem leading_underscores_in_place :
+    findCompound A b!"___foo_bar_x" b!"foo_bar" b!"baz_qux" libStyles = none ∧
+    findEnhanced A b!"___foo_bar_x" b!"foo_bar" b!"baz_qux" (variantKeys A b!"foo_bar" libStyles) libStyles =
+      [⟨1, 3, 3, 10, b!"foo_bar", b!"foo_bar"⟩] := by decide +kernel
+
+/-- formerly finding `hump_identifier_with_underscore_rejoined` -/
+theorem hump_underscore_in_place :
+    findCompound A b!"myFooBar_" b!"foo_bar" b!"baz_qux" libStyles = none ∧
+    findEnhanced A b!"myFooBar_" b!"foo_bar" b!"baz_qux" (variantKeys A b!"foo_bar" libStyles) libStyles =
+      [⟨1, 2, 2, 8, b!"FooBar", b!"FooBar"⟩] := by decide +kernel
+
+/-- the guard does not reject what the pinned tests rely on: a window covering all hump words of a hyphenated identifier,
+    a doubled separator INSIDE the term's span, and identifiers mixing `_` and `-` -/
+theorem guard_keeps_pinned_behaviour :
+    findCompound A b!"FooBarBazQux-config" b!"foo_bar_baz_qux" b!"alpha_beta" libStyles =
+      some ⟨b!"FooBarBazQux-config", b!"AlphaBeta-config", .kebab⟩ ∧
+    findCompound A b!"my_foo__bar_x" b!"foo_bar" b!"baz_qux" libStyles =
+      some ⟨b!"my_foo__bar_x", b!"my_baz_qux_x", .snake⟩ := by decide +kernel
+
+/-- before the fix (the same function without the guard): the three defects, kept as regression anchors -/
+theorem C07_before_fix_witnesses :
+    findCompoundOld A b!"my__foo_bar_x" b!"foo_bar" b!"baz_qux" libStyles = some ⟨b!"my__foo_bar_x", b!"my_baz_qux_x", .snake⟩ ∧
+    findCompoundOld A b!"my_foo_bar__" b!"foo_bar" b!"baz_qux" libStyles = some ⟨b!"my_foo_bar__", b!"my_baz_qux_", .snake⟩ ∧
+    findCompoundOld A b!"___foo_bar_x" b!"foo_bar" b!"baz_qux" libStyles = some ⟨b!"___foo_bar_x", b!"__baz_qux_x", .snake⟩ ∧
+    findCompoundOld A b!"myFooBar_" b!"foo_bar" b!"baz_qux" libStyles = some ⟨b!"myFooBar_", b!"my_BazQux_", .snake⟩ := by
+  decide +kernel
+
+-- 5. full strength: any separator multiplicity (snake family) -------------------------------------------------------
+
 
 /-- snake-case identifier with `n1` underscores between prefix words and term and `n2` between term and suffix words -/
 def snakeIdent (lead : Bytes) (pre mid suf : List Bytes) (n1 n2 : Nat) : Bytes :=
-  lead ++ joinWith [95] pre ++ List.replicate n1 95 ++ joinWith [95] mid ++ List.replicate n2 95 ++ joinWith [95] suf
+  lead ++ (joinWith [95] pre ++ List.replicate n1 95 ++ joinWith [95] mid ++ List.replicate n2 95 ++ joinWith [95] suf)
 
-/-- full strength (false today): separators are preserved whatever their multiplicity -/
+/-- Full strength for the snake family: whatever the number of underscores between prefix words, term and suffix words,
+    an answer of the compound matcher reproduces everything outside the term byte for byte. -/
 def C07_full : Prop :=
   ∀ (lead : Bytes) (pre pat rep suf : List Bytes) (n1 n2 : Nat) (c : CMatch),
-    Words pre → Words pat → Words rep → Words suf → pre ≠ [] → suf ≠ [] → 1 ≤ n1 → 1 ≤ n2 →
+    (lead = [] ∨ lead = [95] ∨ lead = [95, 95]) →
+    Words pre → Words pat → Words rep → Words suf → pre ≠ [] → suf ≠ [] → 2 ≤ pat.length → rep ≠ [] →
+    Neutral A (pre ++ pat ++ suf) → OccursOnce pre pat suf → 1 ≤ n1 → 1 ≤ n2 →
     findCompound A (snakeIdent lead pre pat suf n1 n2) (joinWith [95] pat) (joinWith [95] rep) libStyles = some c →
     c.replacement = snakeIdent lead pre rep suf n1 n2
 
-/-- finding `doubled_separator_collapsed`: `my__foo_bar_x` becomes `my_baz_qux_x` -/
-theorem C07_witness_double_sep :
-    findCompound A b!"my__foo_bar_x" b!"foo_bar" b!"baz_qux" libStyles =
-      some ⟨b!"my__foo_bar_x", b!"my_baz_qux_x", .snake⟩ ∧
-    findEnhanced A b!"let my__foo_bar_x = 1;" b!"foo_bar" b!"baz_qux" (variantKeys A b!"foo_bar" libStyles) libStyles =
-      [⟨1, 4, 4, 17, b!"my__foo_bar_x", b!"my_baz_qux_x"⟩] := by decide +kernel
+/-- Irregular multiplicities are left to the exact matcher: with more than one underscore between the prefix words and
+    the term or between the term and the suffix words, the compound matcher produces nothing (the exact pass then marks
+    the term's own span, see `exact_hit_is_a_variant` and `doubled_separator_in_place`). -/
+theorem snake_irregular_none {lead : Bytes} {pre pat suf : List Bytes} {n1 n2 : Nat} {new : Bytes}
+    (hlead : lead = [] ∨ lead = [95] ∨ lead = [95, 95])
+    (hpre : Words pre) (hpat : Words pat) (hsuf : Words suf) (hpne : pre ≠ []) (hsne : suf ≠ []) (h2 : 2 ≤ pat.length)
+    (honce : OccursOnce pre pat suf) (h1 : 1 ≤ n1) (h2' : 1 ≤ n2) (h11 : ¬ (n1 = 1 ∧ n2 = 1)) :
+    findCompound A (snakeIdent lead pre pat suf n1 n2) (joinWith [95] pat) new libStyles = none := by
+  have hpatne : pat ≠ [] := by intro h; rw [h] at h2; simp at h2
+  have hws : Words (pre ++ pat ++ suf) := by
+    intro w hw
+    simp only [List.mem_append] at hw
+    rcases hw with (h | h) | h
+    · exact hpre w h
+    · exact hpat w h
+    · exact hsuf w h
+  have hold : parse A (joinWith [95] pat) = pat := parse_lower_sep acrOk (by decide) hpat.lowerWords
+  cases hfc : findCompound A (snakeIdent lead pre pat suf n1 n2) (joinWith [95] pat) new libStyles with
+  | none => rfl
+  | some c =>
+  exfalso
+  obtain ⟨p0, ps, rfl⟩ := List.exists_cons_of_ne_nil hpne
+  obtain ⟨q0, qs, rfl⟩ := List.exists_cons_of_ne_nil hpatne
+  obtain ⟨s0, ss, rfl⟩ := List.exists_cons_of_ne_nil hsne
+  have hl := hws.lowerWords
+  have ha := alpha_lowerWords hl
+  have hp0 := hl p0 (by simp)
+  obtain ⟨c0, r0, hr0⟩ := List.exists_cons_of_ne_nil hp0.1
+  have hhead : (joinWith [95] (p0 :: ps) ++ List.replicate n1 95 ++ joinWith [95] (q0 :: qs) ++ List.replicate n2 95 ++
+      joinWith [95] (s0 :: ss)).head? = some c0 := by
+    rw [joinWith_eq_tailOf, hr0]; rfl
+  have hex := extractPrefix_lead hlead hhead (lower_alpha (hp0.2 c0 (by rw [hr0]; simp)))
+  have f45 := contains_body_false (c := 45) (by decide) (by decide) ha n1 n2
+  have f46 := contains_body_false (c := 46) (by decide) (by decide) ha n1 n2
+  have f95 : contains (joinWith [95] (p0 :: ps) ++ List.replicate n1 95 ++ joinWith [95] (q0 :: qs) ++ List.replicate n2 95 ++
+      joinWith [95] (s0 :: ss)) 95 = true := by
+    obtain ⟨k, rfl⟩ : ∃ k, n1 = k + 1 := ⟨n1 - 1, by omega⟩
+    simp [contains, List.any_append, List.replicate_succ]
+  have hsc : shortcutCond (joinWith [95] (p0 :: ps) ++ List.replicate n1 95 ++ joinWith [95] (q0 :: qs) ++
+      List.replicate n2 95 ++ joinWith [95] (s0 :: ss)) (joinWith [95] (q0 :: qs)) = false := by
+    simp only [shortcutCond, f45, f46, Bool.and_false, Bool.or_self, Bool.false_and]
+  have hparse := parse_three_blocks (A := A) (d := 95) (by decide) (xs := p0 :: ps) (ys := q0 :: qs) (zs := s0 :: ss)
+    (by simp) (by simp) (by simp) (fun r hr => good_lower acrOk (hl r hr).1 (hl r hr).2) h1 h2'
+  have hg := findCompound_guard hfc (by rw [snakeIdent, hex]; exact hsc)
+  rw [snakeIdent, hex] at hg
+  simp only [hparse, hold] at hg
+  have hmw := mw_once (pat := q0 :: qs) (by simp) (fun p hp => lower_of_lower (hpat p hp).2) (p0 :: ps) (s0 :: ss) 0
+    (fun w hw => by
+      simp only [List.mem_append] at hw
+      rcases hw with h | h
+      · exact lower_of_lower (hpre w h).2
+      · exact lower_of_lower (hsuf w h).2) honce
+  rw [hmw] at hg
+  have hwords : ∀ t ∈ (p0 :: ps) ++ (q0 :: qs) ++ (s0 :: ss), t ≠ [] ∧ ∀ c ∈ t, isAlnum c = true :=
+    fun t ht => ⟨(hl t ht).1, fun c hc => lower_alnum ((hl t ht).2 c hc)⟩
+  have hgo := gapsOk_three_blocks [(0 + (p0 :: ps).length, 0 + (p0 :: ps).length + (q0 :: qs).length)] hwords n1 n2
+  simp only [survivesRejoin, f95, f45, Bool.and_false, Bool.false_eq_true, if_false, if_true, hgo] at hg
+  simp only [insideWindow, List.any_cons, List.any_nil, List.length_cons, Nat.zero_add, Nat.lt_irrefl, decide_false,
+    Bool.false_and, Bool.and_false, Bool.or_false, Bool.false_or, Bool.and_eq_true, beq_iff_eq] at hg
+  exact h11 hg
 
-theorem C07_full_false : ¬ C07_full := by
-  intro h
-  have := h [] [b!"my"] [b!"foo", b!"bar"] [b!"baz", b!"qux"] [b!"xy"] 2 1 ⟨b!"my__foo_bar_xy", b!"my_baz_qux_xy", .snake⟩
-    (by decide) (by decide) (by decide) (by decide) (by decide) (by decide) (by decide) (by decide) (by decide +kernel)
-  exact absurd this (by decide)
+theorem C07_full_holds : C07_full := by
+  intro lead pre pat rep suf n1 n2 c hlead hpre hpat hrep hsuf hpne hsne h2 hrne hN honce h1 h2' hfc
+  have hpatne : pat ≠ [] := by intro h; rw [h] at h2; simp at h2
+  have hws : Words (pre ++ pat ++ suf) := by
+    intro w hw
+    simp only [List.mem_append] at hw
+    rcases hw with (h | h) | h
+    · exact hpre w h
+    · exact hpat w h
+    · exact hsuf w h
+  have hold : parse A (joinWith [95] pat) = pat := parse_lower_sep acrOk (by decide) hpat.lowerWords
+  have hnew : parse A (joinWith [95] rep) = rep := parse_lower_sep acrOk (by decide) hrep.lowerWords
+  by_cases h11 : n1 = 1 ∧ n2 = 1
+  · obtain ⟨rfl, rfl⟩ := h11
+    have e : ∀ mid : List Bytes, mid ≠ [] → snakeIdent lead pre mid suf 1 1 = lead ++ joinWith [95] (pre ++ mid ++ suf) := by
+      intro mid hm
+      rw [snakeIdent, joinWith_append 95 (pre ++ mid) suf (by simp [hpne]) hsne, joinWith_append 95 pre mid hpne hm]
+      simp [List.replicate]
+    have hloc := compound_locality_partial acrOk acrStable (st := .snake) (by decide) hlead hpre hsuf hpat hrep hN h2 hrne
+      (by simp [hpne]) honce hold hnew (styles := libStyles) (by decide)
+    have hl1 : LowerWords (pre ++ pat ++ suf) := hws.lowerWords
+    have hl2 : LowerWords (pre ++ rep ++ suf) := by
+      intro w hw
+      simp only [List.mem_append] at hw
+      rcases hw with (h | h) | h
+      · exact (hpre w h).lowerWord
+      · exact (hrep w h).lowerWord
+      · exact (hsuf w h).lowerWord
+    rw [toStyle_words A hl1, toStyle_words A hl2] at hloc
+    rw [e pat hpatne, hloc] at hfc
+    cases hfc
+    exact (e rep hrne).symm
+  · have := snake_irregular_none hlead hpre hpat hsuf hpne hsne h2 honce h1 h2' h11 (new := joinWith [95] rep)
+    rw [this] at hfc
+    cases hfc
 
-/-- finding `doubled_separator_collapsed`, trailing form: a doubled trailing separator becomes single -/
-theorem C07_witness_double_trailing :
-    findCompound A b!"my_foo_bar__" b!"foo_bar" b!"baz_qux" libStyles =
-      some ⟨b!"my_foo_bar__", b!"my_baz_qux_", .snake⟩ := by decide +kernel
 
-/-- finding `leading_underscores_lost`: only two leading underscores survive -/
-theorem C07_witness_leading_underscores :
-    findCompound A b!"___foo_bar_x" b!"foo_bar" b!"baz_qux" libStyles =
-      some ⟨b!"___foo_bar_x", b!"__baz_qux_x", .snake⟩ := by decide +kernel
-
-/-- finding `hump_identifier_with_underscore_rejoined`: a trailing underscore turns the hump words into `_`-joined ones -/
-theorem C07_witness_hump_underscore :
-    findCompound A b!"myFooBar_" b!"foo_bar" b!"baz_qux" libStyles =
-      some ⟨b!"myFooBar_", b!"my_BazQux_", .snake⟩ := by decide +kernel
+/-- non-vacuity of `C07_full_holds` (regular case, the matcher answers) and of `snake_irregular_none` -/
+example : findCompound A (snakeIdent b!"_" [b!"my"] [b!"foo", b!"bar"] [b!"item"] 1 1) b!"foo_bar" b!"baz_qux" libStyles =
+    some ⟨b!"_my_foo_bar_item", b!"_my_baz_qux_item", .snake⟩ := by decide +kernel
+example : findCompound A b!"my___foo_bar__item" b!"foo_bar" b!"baz_qux" libStyles = none :=
+  snake_irregular_none (lead := []) (pre := [b!"my"]) (pat := [b!"foo", b!"bar"]) (suf := [b!"item"]) (n1 := 3) (n2 := 2)
+    (by decide) (by decide) (by decide) (by decide) (by decide) (by decide) (by decide) ⟨by decide, by decide⟩
+    (by decide) (by decide) (by decide)
 
 /-- the guards of `compound_locality_partial` seen from outside: a single trailing separator is still restored, and a
     digit word keeps its place -/
